@@ -301,7 +301,17 @@ func ruleOptionFields(c *Check, p *Program, rule string) {
 				return
 			}
 			// a helper writes on behalf of its callers: attribute the write to them
-			for _, ctx := range anchorContexts(fn, 2) {
+			ctxs := anchorContexts(fn, 2)
+			allOpt := len(ctxs) > 0
+			for _, ctx := range ctxs {
+				if !isOptionClosure(ctx) {
+					allOpt = false
+				}
+			}
+			if _, isSt := in.(*ssa.Store); isSt && allOpt && what != "FrameDescriptor.Flags (whole word)" {
+				seenWriters++ // the body of an option closure moved into a function of its own
+			}
+			for _, ctx := range ctxs {
 				cfn := shortFn(ctx)
 				// the Reader's descriptor is parsed from the stream, not configured: initR is its writer
 				if cfn == "FrameDescriptor.initR" || isOptionClosure(ctx) {
